@@ -271,8 +271,6 @@ func universe(all []*Item) []string {
 		}
 	}
 	sort.Strings(out)
-	// case variants of an existing owner and of a name under a wildcard (appended after the sorted part)
-	out = append(out, "WWW.Example.COM.", "NX.W.EXAMPLE.COM.")
 	return out
 }
 
